@@ -105,22 +105,62 @@ class ExtMethod:
         if self.is_async and not I.native:
             from .asyncrule import ExtAwait
 
+            if self.effect:
+                # assertions about "the moment the request is handed over" refer to the call, i.e. the
+                # state before the coroutine is suspended in the callee
+                _effect_hooks(I, f"{self_obj.cls.__name__}.{self.name}", args, kwargs)
             return ExtAwait(self, self_obj, list(args), dict(kwargs))
         return self.apply_now(I, self_obj, args, kwargs)
 
     def apply_now(self, I, self_obj, args, kwargs):
         I.ctx.assumptions_used.add(f"external:{self_obj.cls.__name__}.{self.name}")
+        if self.raises and not self.is_async and not I.native:
+            k = I.ctx.choose(1 + len(self.raises), f"{self.name}: outcome")
+            if k > 0:
+                mk = self.raises[k - 1]
+                exc = mk(I) if not isinstance(mk, type) else mk_exc(mk)
+                I.ctx.emit(f"{self_obj.cls.__name__}.{self.name}!raise", self_obj, tuple(args), dict(kwargs))
+                raise PyRaise(exc)
         if self.fn is not None:
             return self.fn(I, self_obj, args, kwargs)
+        if self.effect and not I.native and not self.is_async:
+            _effect_hooks(I, f"{self_obj.cls.__name__}.{self.name}", args, kwargs)
         if self.effect:
             I.ctx.emit(f"{self_obj.cls.__name__}.{self.name}", self_obj, tuple(args), dict(kwargs))
         for k, v in self.sets.items():
             self_obj.fields[k] = v
         if self.returns_field is not None:
+            if I.in_old and I.old_view is not None and self_obj.oid in I.old_view:
+                return I.old_view[self_obj.oid][self.returns_field]
             return self_obj.fields[self.returns_field]
         if self.returns is not None:
-            return self.returns(I, self_obj, args, kwargs)
+            r = self.returns(I, self_obj, args, kwargs)
+            I.ctx.emit("ret", f"{self_obj.cls.__name__}.{self.name}", r)
+            return r
         return None
+
+
+def _effect_hooks(I, name, args, kwargs):
+    """Assertions the contract under proof attaches to the moment an external effect happens."""
+    ctl = getattr(I, "await_ctl", None)
+    if ctl is None:
+        return
+    from .modular import _observe
+
+    _observe(I, "ext:" + name, tuple(args))
+    for ename, cid, lam in getattr(ctl.con, "effect_asserts", []):
+        if ename != name:
+            continue
+        from .contracts import eval_clause
+
+        b = dict(ctl.bindings)
+        b["fx"] = list(I.ctx.fx)
+        b["eargs"] = tuple(args)
+        b["ekwargs"] = dict(kwargs)
+        code = lam.__code__
+        names = code.co_varnames[: code.co_argcount]
+        I.ctx.check_obligation(f"{ctl.con.qualname}::at[{name}].{cid}",
+                               eval_clause(I, lam, {n: b[n] for n in names if n in b}, old_view=I.entry_old_view))
 
 
 PURE_NATIVE_MODULES = {"builtins", "operator", "math", "binascii", "struct", "enum", "dataclasses", "itertools",
@@ -397,6 +437,10 @@ def construct(I, cls, args, kwargs):
         raise PyRaise(e)
 
 
+def _is_struct_cls(cls):
+    return _is_struct(cls)
+
+
 def _repo_method(cls, name):
     for k in cls.__mro__:
         if name in k.__dict__:
@@ -548,8 +592,19 @@ def b_bytearray(I, args, kwargs):
     return b_bytes(I, args, kwargs, mutable=True)
 
 
+_MODEL_TYPES = {"bytes": bytes, "bytearray": bytearray, "int": int, "bool": bool, "str": str, "list": list,
+                "tuple": tuple, "dict": dict, "set": set, "frozenset": frozenset, "range": range, "type": type}
+
+
+def _untype(c):
+    if isinstance(c, Model) and c.name in _MODEL_TYPES:
+        return _MODEL_TYPES[c.name]
+    return c
+
+
 def b_isinstance(I, args, kwargs):
     v, c = args
+    c = tuple(_untype(x) for x in c) if isinstance(c, tuple) else _untype(c)
     classes = c if isinstance(c, tuple) else (c,)
     if isinstance(v, SOpt):
         if I.fmode:
@@ -764,6 +819,13 @@ def b_callable(I, args, kwargs):
 
 def b_getattr(I, args, kwargs):
     obj, name = args[0], args[1]
+    if isinstance(obj, SOpt) and isinstance(name, Opaque):
+        if not (obj.present if isinstance(obj.present, bool) else I.ctx.branch(obj.present)):
+            raise PyRaise(mk_exc(AttributeError, "'NoneType' object has no attribute"))
+        obj = obj.value
+    if isinstance(name, Opaque) and isinstance(obj, SObj) and isinstance(obj.cls, ExtClass) and obj.cls.dynamic is not None:
+        m = obj.cls.dynamic(name)
+        return BoundMethod(m, obj, f"{obj.cls.__name__}.<dynamic>", obj.cls)
     if isinstance(name, Sym):
         raise Unsupported("getattr with symbolic name")
     if len(args) == 3:
